@@ -425,7 +425,31 @@ fn fmt_values(r: &mut Rng, n: usize, count: usize) -> Vec<B> {
     }
     v.push(p.clone());
     v.push(gen::negate(&p));
+    // bounds of the primitive integers (fast paths through u64 / u128) and decimal chunk boundaries 10^19, 10^38
+    for k in [64usize, 128] {
+        if k < 8 * n {
+            let q = gen::pow2(n, k);
+            v.push(gen::sub1(&q));
+            v.push(q.clone());
+            v.push(gen::add1(&gen::add1(&gen::add1(&gen::add1(&gen::add1(&q))))));
+            if r.below(2) == 0 {
+                v.push(gen::negate(&q));
+            }
+        }
+    }
+    for j in [19u32, 38, 9, 18] {
+        let (q, ov) = gen::upow(&gen::small(n, 10), j, n);
+        if !ov && q[n - 1] & 0x80 == 0 && r.below(2) == 0 {
+            v.push(gen::sub1(&q));
+            v.push(q.clone());
+            let m = gen::umul(&gen::trim(q), &gen::trim(gen::small(n.max(2), 2 + r.below(7))));
+            if gen::trim(m.clone()).len() <= n {
+                v.push(gen::fit(&gen::trim(m), n));
+            }
+        }
+    }
     let bnd = gen::boundary(n);
+    let count = count.max(v.len() + 3);
     while v.len() < count {
         v.push(gen::any(r, n, &bnd));
     }
